@@ -1,8 +1,13 @@
 package main
 
 import (
+	"encoding/json"
+	"fmt"
 	"math/rand"
+	"reflect"
+	"strings"
 
+	"github.com/GuanceCloud/platypus/pkg/errchain"
 	"github.com/GuanceCloud/platypus/pkg/token"
 )
 
@@ -83,5 +88,218 @@ func genC17(e *emitter, tier string, seed int64) {
 		}
 		lookupCase(e, string(b), offs)
 		e.stat("lncol_random")
+	}
+	genC17Tree(e, tier, rng)
+	genC17Err(e, tier, rng)
+	genC17Chain(e, tier, rng)
+}
+
+// ---- positions stored in the tree: generated trees x layouts, judged on the dumped tree ----
+
+func genC17Tree(e *emitter, tier string, rng *rand.Rand) {
+	g := &tg{rng: rng}
+	N := 600
+	if tier == "thorough" {
+		N = 20000
+	}
+	layouts := []string{"canon", "tight", "eol", "eol", "comment"}
+	for i := 0; i < N; i++ {
+		ss := []any{}
+		for k := 1 + rng.Intn(3); k > 0; k-- {
+			ss = append(ss, g.stmt(1+rng.Intn(4)))
+		}
+		lay := layouts[rng.Intn(len(layouts))]
+		src := printProg(rng, ss, lay)
+		res := parseTreeV1(src)
+		if res["ast"] == nil {
+			continue
+		}
+		e.stat("treepos/" + lay)
+		e.emit(map[string]any{"k": "treepos", "src": hx(src), "ast": res["ast"], "gen": "treepos", "key": src})
+	}
+}
+
+// ---- positions of errors: one injected load-time or run-time fault at a known place ----
+
+// lineSpan: the byte range of the lines that hold s[a:b]
+func lineSpan(s string, a, b int) []int {
+	st := strings.LastIndex(s[:a], "\n") + 1
+	en := strings.Index(s[b:], "\n")
+	if en < 0 {
+		en = len(s)
+	} else {
+		en += b + 1
+	}
+	return []int{st, en}
+}
+
+func genC17Err(e *emitter, tier string, rng *rand.Rand) {
+	bases := []string{
+		"x = @\n", "p(1)\nx = [1, @, 3]\n", "p(1)\n\nx = {\"k\": @}\n", "  x = (1 + @) * 2\n", "x = -@\np(2)\n", "x = 1 < @\n", "x = @ && true\n",
+		"l = [1]\nx = l[@]\n", "l = [1]\nl[0] = @\n", "l = [1]\nx = l[@:]\n", "l = [1]\nx = l[::@]\n", "x = len(@)\n", "add_key(k, @)\n", "x = pr(1, @)\n",
+		"if @ {\n  p(1)\n}\n", "if true {\n  p(1)\n} elif @ {\n  p(2)\n}\n", "if true {\n  x = @\n} else {\n  p(2)\n}\n", "if false {\n  p(1)\n} else {\n  x = @\n}\n",
+		"for i = @; i < 2; i = i + 1 {\n  p(i)\n}\n", "for i = 0; @; i = i + 1 {\n  break\n}\n", "for i = 0; i < 2; i = i + 1 {\n  x = @\n}\n",
+		"for x in @ {\n  p(x)\n}\n", "for x in [1] {\n  y = @\n}\n", "é = \"é\"\nfor x in [1] {\n  for y in [@] {\n    p(y)\n  }\n}\n",
+		"#\n", "p(1)\nif true {\n  #\n}\n", "for x in [1] {\n  p(x)\n}\n#\n", "for i = 0; i < 1; i = i + 1 {\n}\n  #\n",
+	}
+	loadOff := []string{"nosuch()", "nosuch(1, 2)", "len()", "len(1, 2)", "add_key()", "cast(k, \"nosuchtype\")", "pr(nosuch())", "[nosuch()]", "{1: 2}", "grok(_, \"%{NOSUCH:a}\")"}
+	runOff := []string{"(1 / zero0)", "(\"a\" - 1)", "(zero0 % 0.0)", "undefl[0]", "(1 + [1])", "(nil * 2)", "l9[5]"}
+	stmtLoad := []string{"break", "continue", "nosuch()", "x = nosuch()", "if nosuch() {\n}"}
+	stmtRun := []string{"x = 1 / zero0", "l9[7] = 1", "x = \"a\" - 1"}
+	emit := func(src, gen string, a, b int, errj any, file string, srcs map[string]string) {
+		hs := map[string]any{}
+		for k, v := range srcs {
+			hs[hx(k)] = hx(v)
+		}
+		e.stat(gen)
+		e.emit(map[string]any{"k": "errpos", "src": hx(src), "file": hx(file), "srcs": hs, "err": errj, "span": lineSpan(src, a, b), "gen": gen, "key": src})
+	}
+	for _, b := range bases {
+		mark, lo, ro := "@", loadOff, runOff
+		if strings.Contains(b, "#") {
+			mark, lo, ro = "#", stmtLoad, stmtRun
+		}
+		at := strings.Index(b, mark)
+		for _, o := range lo {
+			src := strings.Replace(b, mark, o, 1)
+			out := loadV1(loadCase{Scripts: []scriptSrc{{"a.p", src}}, Order: []string{"a.p"}})
+			if scs, ok := out["scripts"].([]any); ok && len(scs) == 1 {
+				rec, _ := scs[0].(map[string]any)
+				var ej any
+				if rec["check_err"] != nil {
+					ej = rec["check_err"]
+				} else if rec["parse_err"] != nil {
+					ej = rec["parse_err"]
+				}
+				if ej != nil {
+					emit(src, "errpos-load", at, at+len(o), ej, "a.p", map[string]string{"a.p": src})
+				}
+			}
+		}
+		for _, o := range ro {
+			src := "zero0 = 0\nl9 = [1]\n" + strings.Replace(b, mark, o, 1)
+			at2 := at + len("zero0 = 0\nl9 = [1]\n")
+			// directly, and through use() from a caller (the chain then has the call site as well)
+			for _, via := range []bool{false, true} {
+				scripts := []scriptSrc{{"a.p", src}}
+				entry := "a.p"
+				srcs := map[string]string{"a.p": src}
+				if via {
+					caller := "p(0)\n\n  use(\"a.p\")\np(9)\n"
+					scripts = append(scripts, scriptSrc{"m.p", caller})
+					entry = "m.p"
+					srcs["m.p"] = caller
+				}
+				out := runV1(runCase{Scripts: scripts, Entry: entry, Point: pointSpec{Meas: "m", Time: 1}, HasSig: true, SigK: 3000})
+				if obs, ok := out["obs"].(map[string]any); ok && obs["outcome"] == "err" {
+					emit(src, "errpos-run", at2, at2+len(o), obs["err"], "a.p", srcs)
+				}
+			}
+		}
+	}
+}
+
+// ---- error chain objects: operation sequences with copies ----
+
+type chainOp struct {
+	Op   string `json:"op"`
+	H    int    `json:"h"`
+	File string `json:"file"`
+	Ln   int    `json:"ln"`
+	Col  int    `json:"col"`
+	Pos  int    `json:"pos"`
+	Msg  string `json:"msg"`
+}
+
+func runChainOps(e *emitter, ops []chainOp, gen string) {
+	hs := []*errchain.PlError{}
+	snaps := []any{}
+	for _, o := range ops {
+		lp := token.LnColPos{Pos: token.Pos(o.Pos), Ln: o.Ln, Col: o.Col}
+		switch o.Op {
+		case "new":
+			hs = append(hs, errchain.NewErr(unhx(o.File), lp, unhx(o.Msg)))
+		case "append":
+			hs[o.H].ChainAppend(unhx(o.File), lp)
+		case "copy":
+			hs = append(hs, hs[o.H].Copy())
+		}
+		snap := []any{}
+		for _, h := range hs {
+			d := dumpErr(h)
+			d["msg"] = hx(h.Err)
+			d["text"] = hx(h.Error())
+			rt := false
+			if b, err := json.Marshal(h); err == nil {
+				var back errchain.PlError
+				if json.Unmarshal(b, &back) == nil {
+					rt = reflect.DeepEqual(&back, h)
+				}
+			}
+			d["json_rt"] = rt
+			snap = append(snap, d)
+		}
+		snaps = append(snaps, snap)
+	}
+	e.stat(gen)
+	e.emit(map[string]any{"k": "chainops", "ops": ops, "snaps": snaps, "gen": gen, "key": fmt.Sprint(ops)})
+}
+
+func genC17Chain(e *emitter, tier string, rng *rand.Rand) {
+	files := []string{"a.p", "dir/b.p", "é.p"}
+	mkPos := func(i int) chainOp {
+		return chainOp{File: hx(files[i%len(files)]), Ln: 1 + i, Col: 1 + 2*i, Pos: 10 * i}
+	}
+	// chains of 1..4 positions, then every sequence of up to 3 further operations (append through any handle, copy of any handle)
+	depth := 3
+	if tier == "thorough" {
+		depth = 4
+	}
+	for base := 1; base <= 4; base++ {
+		start := []chainOp{{Op: "new", File: hx("a.p"), Ln: 1, Col: 1, Pos: 0, Msg: hx("boom: x")}}
+		for i := 1; i < base; i++ {
+			o := mkPos(i)
+			o.Op, o.H = "append", 0
+			start = append(start, o)
+		}
+		var rec func(ops []chainOp, handles, d int)
+		rec = func(ops []chainOp, handles, d int) {
+			runChainOps(e, ops, "chain-exhaustive")
+			if d == 0 {
+				return
+			}
+			for h := 0; h < handles; h++ {
+				o := mkPos(len(ops) + 3)
+				o.Op, o.H = "append", h
+				rec(append(append([]chainOp{}, ops...), o), handles, d-1)
+				rec(append(append([]chainOp{}, ops...), chainOp{Op: "copy", H: h}), handles+1, d-1)
+			}
+		}
+		rec(start, 1, depth)
+	}
+	N := 300
+	if tier == "thorough" {
+		N = 20000
+	}
+	for i := 0; i < N; i++ {
+		ops := []chainOp{{Op: "new", File: hx(files[rng.Intn(3)]), Ln: 1 + rng.Intn(5), Col: 1 + rng.Intn(80), Pos: rng.Intn(500), Msg: hx([]string{"m", "a: b\nc", ""}[rng.Intn(3)])}}
+		handles := 1
+		for k := 2 + rng.Intn(12); k > 0; k-- {
+			switch rng.Intn(5) {
+			case 0:
+				o := mkPos(rng.Intn(50))
+				o.Op, o.Msg = "new", hx("other")
+				ops = append(ops, o)
+				handles++
+			case 1, 2:
+				ops = append(ops, chainOp{Op: "copy", H: rng.Intn(handles)})
+				handles++
+			default:
+				o := mkPos(rng.Intn(50))
+				o.Op, o.H = "append", rng.Intn(handles)
+				ops = append(ops, o)
+			}
+		}
+		runChainOps(e, ops, "chain-random")
 	}
 }
